@@ -108,12 +108,15 @@ func c05CheckRule(c *Ctx, text, class string, cnt *c05Counters, alphabet []rune,
 			panic(HarnessError(fmt.Sprintf("KMP automaton missed %q in %q", r.Shortcut, u)))
 		}
 		req := rules.NewRequest(u, c03Source, rules.TypeOther)
+		consequence := "so Match rejects it"
 		if r.Match(req) {
-			panic(HarnessError(fmt.Sprintf("rule %q matches %q although its shortcut %q is absent", text, u, r.Shortcut)))
+			// Match has its own idea of where to look for the shortcut; the index keyed by the shortcut
+			// looks it up in the lower-cased URL and does not find the rule
+			consequence = "Match accepts it, the shortcut index (keyed by windows of the lower-cased URL) cannot find the rule"
 		}
 		found = true
 		c.Run.Violate(ev.Violation{Pred: "accepted-url-contains-shortcut", Sig: sig,
-			What:   fmt.Sprintf("rule %q: its pattern %q accepts %q, which does not contain the shortcut %q, so Match rejects it", text, reString(re, status), u, r.Shortcut),
+			What:   fmt.Sprintf("rule %q: its pattern %q accepts %q, whose lower-cased form does not contain the shortcut %q: %s", text, reString(re, status), u, r.Shortcut, consequence),
 			Replay: replay})
 		return false
 	})
